@@ -52,7 +52,7 @@ DOMAIN = {
         "var_name": ["vq"], "use_ste": [False], "use_variables": [True],
     },
     "quantized_hswish": {
-        "bits": [6, 4], "integer": [2, 1], "symmetric": [1], "alpha": [2.0], "use_stochastic_rounding": [True],
+        "bits": [6, 4], "integer": [2, 1], "symmetric": [1], "alpha": [2.0, "auto", "auto_po2"], "use_stochastic_rounding": [True],
         "scale_axis": [0], "qnoise_factor": [0.5], "var_name": ["vq"], "use_variables": [True],
         "relu_shift": [2], "relu_upper_bound": [4],
     },
@@ -66,6 +66,7 @@ REQUIRES = {
     ("quantized_bits", "post_training_scale"): {"alpha": "auto_po2"},
     ("quantized_bits", "scale_axis"): {"alpha": "auto_po2"},
     ("quantized_linear", "scale_axis"): {"alpha": "auto_po2"},
+    ("quantized_hswish", "scale_axis"): {"alpha": "auto_po2"},
     ("binary", "elements_per_scale"): {"alpha": "auto", "scale_axis": 0},
     ("binary", "scale_axis"): {"alpha": "auto"},
     ("binary", "min_po2_exponent"): {"alpha": "auto_po2"},
@@ -96,6 +97,8 @@ def valid(cls, kw):
       return False
     if kw.get("scale_axis") is not None and not auto:
       return False
+  if cls == "quantized_hswish" and kw.get("scale_axis") is not None and not auto:
+    return False
   if cls == "quantized_linear":
     if kw.get("scale_axis") is not None and not auto:
       return False
